@@ -204,6 +204,76 @@ char *if_indextoname(unsigned int idx, char *buf)
   return buf;
 }
 
+/* application socket functions (ares_set_socket_functions_ex) whose interface callbacks know one more interface than the
+ * (interposed) libc: op `appif <h> <hex name> <idx>`.  ares_dup() has to carry them over before it re-applies the server
+ * list, or a link-local server bound to that interface is lost in the copy. */
+typedef struct {
+  char         name[32];
+  unsigned int idx;
+} appif_t;
+static appif_t appifs[16];
+static unsigned int app_nametoindex(const char *ifname, void *ud)
+{
+  const appif_t *a = ud;
+  unsigned int   r = h_nametoindex(ifname, NULL);
+  if (r == 0 && a != NULL && !strcmp(a->name, ifname)) {
+    r = a->idx;
+  }
+  return r;
+}
+static const char *app_indextoname(unsigned int idx, char *buf, size_t buflen, void *ud)
+{
+  const appif_t *a = ud;
+  if (h_indextoname(idx, buf, buflen, NULL) != NULL) {
+    return buf;
+  }
+  if (a != NULL && a->idx == idx) {
+    ares_strcpy(buf, a->name, buflen);
+    return buf;
+  }
+  return NULL;
+}
+static ares_socket_t app_socket(int domain, int type, int protocol, void *ud)
+{
+  (void)ud;
+  return socket(domain, type, protocol);
+}
+static int app_close(ares_socket_t fd, void *ud)
+{
+  (void)ud;
+  return close(fd);
+}
+static int app_setsockopt(ares_socket_t fd, ares_socket_opt_t opt, const void *val, ares_socklen_t len, void *ud)
+{
+  (void)fd;
+  (void)opt;
+  (void)val;
+  (void)len;
+  (void)ud;
+  return 0;
+}
+static int app_connect(ares_socket_t fd, const struct sockaddr *sa, ares_socklen_t len, unsigned int flags, void *ud)
+{
+  (void)flags;
+  (void)ud;
+  return connect(fd, sa, len);
+}
+static ares_ssize_t app_recvfrom(ares_socket_t fd, void *buf, size_t len, int flags, struct sockaddr *sa, ares_socklen_t *salen,
+                                 void *ud)
+{
+  (void)ud;
+  return recvfrom(fd, buf, len, flags, sa, salen);
+}
+static ares_ssize_t app_sendto(ares_socket_t fd, const void *buf, size_t len, int flags, const struct sockaddr *sa,
+                               ares_socklen_t salen, void *ud)
+{
+  (void)ud;
+  return sendto(fd, buf, len, flags, sa, salen);
+}
+static const struct ares_socket_functions_ex appfuncs = { 1,           0,           app_socket,      app_close,      app_setsockopt,
+                                                          app_connect, app_recvfrom, app_sendto,     NULL,           NULL,
+                                                          app_nametoindex, app_indextoname };
+
 static void install_ifaces(ares_channel_t *ch)
 {
   (void)ch; /* nothing to do: the default socket functions reach the table through the interposed libc calls */
@@ -1332,6 +1402,15 @@ static void op_chan(int nt, char **t)
     pservers(ch);
     printf(" mask=0x%x\n", ch->optmask);
     free(txt);
+  } else if (!strcmp(cmd, "appif") && nt == 4) {
+    int           h   = atoi(t[1]);
+    char         *nm  = unhex_str(t[2], NULL);
+    ares_status_t st;
+    snprintf(appifs[h].name, sizeof(appifs[h].name), "%s", nm ? nm : "");
+    appifs[h].idx = (unsigned int)strtoul(t[3], NULL, 10);
+    free(nm);
+    st = ares_set_socket_functions_ex(ch, &appfuncs, &appifs[h]);
+    printf("st=%s\n", stclass(st));
   } else if (!strcmp(cmd, "setsortlist") && nt == 3) {
     char         *txt = unhex_str(t[2], NULL);
     ares_status_t st  = (ares_status_t)ares_set_sortlist(ch, txt);
@@ -1507,7 +1586,7 @@ int main(void)
       op_init(nt, t);
     } else if (!strcmp(t[0], "eff") || !strcmp(t[0], "save") || !strcmp(t[0], "saveinit") || !strcmp(t[0], "dup") ||
                !strcmp(t[0], "csv") || !strcmp(t[0], "csvfix") || !strcmp(t[0], "setcsv") || !strcmp(t[0], "setsortlist") ||
-               !strcmp(t[0], "setports") || !strcmp(t[0], "reinit") || !strcmp(t[0], "destroy")) {
+               !strcmp(t[0], "setports") || !strcmp(t[0], "reinit") || !strcmp(t[0], "destroy") || !strcmp(t[0], "appif")) {
       op_chan(nt, t);
     } else {
       puts("bad-op");
